@@ -6,6 +6,7 @@ import (
 
 	"log/slog"
 
+	"github.com/pkg/errors"
 	"github.com/vkngwrapper/arsenal/memutils/defrag"
 	"github.com/vkngwrapper/core/v3/common"
 )
@@ -102,10 +103,11 @@ func (c *DefragmentationContext) init(o *DefragmentationInfo) error {
 		switch algorithm {
 		case DefragmentationFlagAlgorithmFast:
 			c.context[index].Algorithm = defrag.AlgorithmFast
-		case DefragmentationFlagAlgorithmFull:
+		case DefragmentationFlagAlgorithmFull, 0:
+			// Full is the default algorithm if none is specified
 			c.context[index].Algorithm = defrag.AlgorithmFull
 		default:
-			panic(fmt.Sprintf("unknown defragmentation algorithm: %s", algorithm.String()))
+			return errors.Errorf("incompatible defragmentation algorithm flags: %d", algorithm)
 		}
 
 		err := c.context[index].Init()
